@@ -1444,6 +1444,7 @@ class FileBuilder:
             OSError: If we are unable to create the directory.
         """
         dirs_to_make = self._dirs_to_make(dir_, None)
+        made_dirs = []
         for parent in dirs_to_make:
             if (os.path.isfile(parent) and
                     self._old_cache.created_norm_cased_file(
@@ -1457,6 +1458,11 @@ class FileBuilder:
                 os.mkdir(parent)
             except FileExistsError:
                 continue
+            except OSError:
+                # Don't leave behind the parents we just created
+                FileBuilder._remove_empty_dirs(made_dirs)
+                raise
+            made_dirs.append(parent)
             logger.info('Created directory {:s}'.format(parent))
         return dirs_to_make
 
